@@ -29,8 +29,9 @@ file, ERROR/WARNING/FATAL); -Y (ThrowErrors deliberately discounts printed error
 replaces the error channel), I/O errors (unwritable output, disk full) and message languages other than C are not
 exercised; at most 2 files and 2 passes in the model.  Renderer, tokeniser and comparison in Python are trusted.
 
-Finding on the pinned tree: `Word ErrorCount, WarnCount` wrap at 65536 (REPT 65536 of a faulty line: status 0,
-code file kept, summary "0 errors") -> known_findings/C02.json, proposed_fixes/C02-wide-counters.diff.
+Finding on the tree as originally pinned: `Word ErrorCount, WarnCount` wrap at 65536 (REPT 65536 of a faulty line:
+status 0, code file kept, summary "0 errors") -> known_findings/C02.json, proposed_fixes/C02-wide-counters.diff
+(applied to /repo by the coordinator; on a tree without it the check prints KNOWN-FINDING/VIOLATION again).
 
 Mutations of the real code (selftest/b218_mutants.py, scratch copies, all compile; `./check C02 --selftest`), every one
 reported as VIOLATION by the quick tier: -Werror reclassification disabled; `return GlobErrFlag ? 2 : 0` -> 0;
